@@ -20,14 +20,13 @@ TRUSTED = ["modelled, not verified: the C++ text of ContentLengthInterpreter / H
 ASSUMPTIONS = ["header blocks are shorter than String::SizeMax_ (196607 bytes), so that joining Transfer-Encoding values cannot throw",
                "C locale (isspace/tolower)"]
 MANIFEST = {
-    "text": "partial: for every header block and both parser modes the model's Content-Length decision is proved sound "
+    "text": "full: for every header block and both parser modes the model's Content-Length decision is proved sound "
             "(a resulting length n implies every Content-Length value of every field denotes n, one field without comma in strict mode), "
-            "complete, and 'otherwise bad framing', for all inputs except two regions that the real code gets wrong and that are stated as "
-            "explicit hypotheses and proved as counterexamples: a comma list with a VT/FF-only element (the rest of the list is ignored) and "
-            "a list without any value (treated as absent). The real HttpHeader::parse runs under ASan/UBSan against the model and against "
-            "an independent python oracle on generated and exhaustively enumerated blocks",
+            "complete, and 'otherwise bad framing', for all inputs (full strength since the two defects this check found were repaired in squid: "
+            "43aac5c strListGetItem skips VT/FF, 95b4622 checkList rejects a list without members). The real HttpHeader::parse runs under "
+            "ASan/UBSan against the model and against an independent python oracle on generated and exhaustively enumerated blocks",
     "note": "trusted: Lean kernel, hand transcription of the C++ into the model, strtoll specification, registry/charset dump programs, "
-            "harness and python oracle; known findings C26-list-truncated and C26-empty-list (relaxed parser only)",
+            "harness and python oracle; former findings C26-list-truncated and C26-empty-list are fixed and kept as regression cases",
     "technique": "Lean 4 proof (induction over the list scanner and the field fold) + registry/charset translators + ASan differential run + direct oracle",
 }
 
@@ -169,22 +168,6 @@ VALUE_ALPHABET = b"05,7 \v+x\"\t"
 
 
 def cases(rng, tier):
-    """quick tier: inputs of the two known-finding classes are thinned to 4 per class (each costs two extra process starts in the
-    decide phase); the corpus and the thorough tier keep all of them"""
-    if tier == "thorough":
-        yield from all_cases(rng, tier)
-        return
-    seen = {}
-    for line in all_cases(rng, tier):
-        c = classify(line, "", "")
-        if c:
-            seen[c] = seen.get(c, 0) + 1
-            if seen[c] > 4:
-                continue
-        yield line
-
-
-def all_cases(rng, tier):
     thorough = tier == "thorough"
     # exhaustive: all 1- and 2-field (thorough: 3-field over a smaller alphabet) blocks, main modes
     vals = SMALL_VALUES
@@ -288,9 +271,8 @@ def cl_reference(block, relaxed):
             bad = True
         v = raw.strip(ISSPACE)
         if relaxed and b"," in v:
-            # RFC 9110 5.6.1: members that are empty or only optional whitespace are ignored; any other member counts, so a
-            # member made of other white space only (VT, FF) is a member without a value
-            items = [x.strip(ISSPACE) for x in v.split(b",") if x.strip(b" \t\r\n") != b""]
+            # RFC 9110 5.6.1: blank members (nothing but white space, in the isspace() sense the parser uses) are ignored
+            items = [x.strip(ISSPACE) for x in v.split(b",") if x.strip(ISSPACE) != b""]
             if not items:
                 bad = True   # a list without a single member is not a Content-Length
             values += items
@@ -402,30 +384,9 @@ def oracle(line, impl):
 
 
 # ---------------------------------------------------------------------------------------------- findings
-def _cl_lists(block):
-    fields, _ = field_lines(block)
-    for f in fields:
-        if f[0].rstrip(ISSPACE).lower() == b"content-length" and b"," in f[1]:
-            yield f[1].strip(ISSPACE)
-
-
+# C26-list-truncated and C26-empty-list are fixed in squid (43aac5c, 95b4622); their witnesses stay in corpus/C26 as regression
+# cases that must pass, and no failing input is classified as known any more.
 def classify(line, impl, why):
-    op, fl, arg = line.split(" ")
-    if op != "p" or fl[0] != "r" or impl.startswith("abort:"):
-        return None
-    block = unhx(arg)
-    trunc = empty = False
-    for v in _cl_lists(block):
-        elems = v.split(b",")
-        # an element that strListGetItem does not skip (not only SP HT CR LF) but that is empty after its isspace() trim
-        if any(e.strip(b" \t\r\n") != b"" and e.strip(ISSPACE) == b"" for e in elems):
-            trunc = True
-        if all(e.strip(b" \t\r\n") == b"" for e in elems):
-            empty = True
-    if trunc:
-        return "C26-list-truncated"
-    if empty:
-        return "C26-empty-list"
     return None
 
 
